@@ -226,6 +226,25 @@ impl<K: KeyT> SetRunner<K> {
             rec.borrow_mut().push((k.k(), ans));
             ans
         };
+        // the SAME object on both sides is a legitimate pair of sets: read-only binary calls only
+        if let Some(base) = name.strip_prefix("self_") {
+            let s: &S<K> = &*m;
+            return match base {
+                "union" => lazy(s.union(s)),
+                "intersection" => lazy(s.intersection(s)),
+                "difference" => lazy(s.difference(s)),
+                "symmetric_difference" => lazy(s.symmetric_difference(s)),
+                "is_subset" => s.is_subset(s).to_string(),
+                "is_superset" => s.is_superset(s).to_string(),
+                "is_disjoint" => s.is_disjoint(s).to_string(),
+                "eq" => (*s == *s).to_string(),
+                "bitor" => opform(Held::new(s | s)),
+                "bitand" => opform(Held::new(s & s)),
+                "bitxor" => opform(Held::new(s ^ s)),
+                "sub" => opform(Held::new(s - s)),
+                _ => format!("bad-op {}", name),
+            };
+        }
         match (name, a.len()) {
             ("insert", 2) | ("insert", 4) => m.insert(K::new(n(0), n(1))).to_string(),
             ("contains", 1) => m.contains(&Q(n(0))).to_string(),
@@ -318,6 +337,31 @@ impl<K: KeyT> SetRunner<K> {
                 }
                 fmt_es(out.get())
             }
+            ("drain_fold", 1) | ("into_iter_fold", 1) => {
+                let mut out = Held::new(Vec::new());
+                let stop = n(0) as usize;
+                let r = std::panic::catch_unwind(std::panic::AssertUnwindSafe(|| {
+                    let eat = |x: K| {
+                        out.get_mut().push(x);
+                        if out.get().len() == stop {
+                            std::panic::panic_any(tape::TapePanic("consumer"));
+                        }
+                    };
+                    if name == "drain_fold" {
+                        m.drain().for_each(eat);
+                    } else {
+                        let old = std::mem::replace(m, new_set());
+                        old.into_iter().for_each(eat);
+                    }
+                }));
+                if let Err(p) = r {
+                    match p.downcast_ref::<tape::TapePanic>() {
+                        Some(tp) if tp.0 == "consumer" => {}
+                        _ => std::panic::resume_unwind(p),
+                    }
+                }
+                fmt_es(out.get())
+            }
             ("into_iter", 1) => {
                 let old = std::mem::replace(m, new_set());
                 let mut out = Held::new(Vec::new());
@@ -402,7 +446,12 @@ impl<K: KeyT> SetRunner<K> {
         let (r, o) = if tgt == "a" { (&mut self.ra, &mut self.rb) } else { (&mut self.rb, &mut self.ra) };
         let mut expect: Option<String> = None;
         let keys = |m: &RefSet| -> BTreeSet<u64> { m.keys().copied().collect() };
-        let (rk, ok) = (keys(r), keys(o));
+        let self_pair = name.starts_with("self_");
+        let name = name.strip_prefix("self_").unwrap_or(name);
+        let other_ref = o.clone();
+        let mut self_copy = r.clone();
+        let (rk, ok) = (keys(r), if self_pair { keys(r) } else { keys(o) });
+        let o: &mut RefSet = if self_pair { &mut self_copy } else { o };
         let math = |op: &str| -> BTreeSet<u64> {
             match op {
                 "union" | "bitor" | "bitor_assign" => rk.union(&ok).copied().collect(),
@@ -483,9 +532,9 @@ impl<K: KeyT> SetRunner<K> {
                     expect = Some(yielded.join(","));
                 }
             }
-            ("drain", 2) | ("into_iter", 1) => {
+            ("drain", 2) | ("into_iter", 1) | ("drain_fold", 1) | ("into_iter_fold", 1) => {
                 let got: Vec<&str> = if ret.is_empty() { vec![] } else { ret.split(',').collect() };
-                let want = std::cmp::min(n(0) as usize, r.len());
+                let want = if name.ends_with("_fold") && n(0) == 0 { r.len() } else { std::cmp::min(n(0) as usize, r.len()) };
                 if got.len() != want {
                     return Some(format!("{} yielded {} elements, expected {}", name, got.len(), want));
                 }
@@ -624,7 +673,10 @@ impl<K: KeyT> SetRunner<K> {
                 name, missing, extra
             ));
         }
-        if !other_changes && *o != other_actual {
+        if self_pair && other_ref != other_actual {
+            return Some(format!("{} (same object on both sides) modified the other set", name));
+        }
+        if !other_changes && !self_pair && *o != other_actual {
             return Some(format!("{} modified the other set", name));
         }
         None
